@@ -2,15 +2,17 @@
    usage: driver_c15 gen --seed S --pairs N [--maxd 4] --prog FILE --obs FILE   (prints the distribution as JSON)
           driver_c15 run --prog FILE --obs FILE
    A case is a text block (see harness/h_fftw_c15.cpp for the reader on the C++ side):
-     case <id> / dim D / inroot e.. / inop <op> .. / out separate|same|shared / outroot e.. / outop <op> .. /
-     which b.. / sign s / api a / end
+     case <id> / dim D / inroot e.. / [inbase b..] / inop <op> .. / out separate|same|shared / outroot e.. /
+     [outbase b..] / outop <op> .. / which b.. / sign s / api a / end
+   (inbase / outbase: the first index of every extension of the root array, default 0; ops include reindexed,
+   reindexedl, blocked, so that views with ANY index base are reached).
    The model side builds both views with the (C01-proved) view model, asks the C15 model for the
    external calls of the front end, and prints the observation lines the harness must reproduce. *)
 open Modelc15
 open C15_zu
 
 
-type side = { root : int list; ops : op list }
+type side = { root : int list; rbase : int list; ops : op list }   (* rbase = [] stands for all zeros *)
 type outmode = Separate | Same | Shared
 type case = {
   id : string; d : int; inp : side; mode : outmode; out : side;   (* out.root ignored unless Separate *)
@@ -26,6 +28,9 @@ let op_text (o : op) : string =
   | OUnrotated -> "unrotated"
   | OTransposed -> "transposed"
   | OReversed -> "reversed"
+  | OReindexed a -> p "reindexed %d" (i a)
+  | OReindexedL l -> p "reindexedl %s" (join " " string_of_int (il l))
+  | OBlocked (a, b) -> p "blocked %d %d" (i a) (i b)
   | _ -> failwith "op not in the C15 alphabet"
 
 let op_of_words (w : string list) : op =
@@ -36,6 +41,9 @@ let op_of_words (w : string list) : op =
   | ["unrotated"] -> OUnrotated
   | ["transposed"] -> OTransposed
   | ["reversed"] -> OReversed
+  | ["reindexed"; a] -> OReindexed (z (int_of_string a))
+  | "reindexedl" :: l when l <> [] -> OReindexedL (List.map (fun a -> z (int_of_string a)) l)
+  | ["blocked"; a; b] -> OBlocked (z (int_of_string a), z (int_of_string b))
   | _ -> failwith ("bad op: " ^ String.concat " " w)
 
 let mode_text = function Separate -> "separate" | Same -> "same" | Shared -> "shared"
@@ -46,10 +54,13 @@ let case_text (c : case) : string =
   add (p "case %s" c.id);
   add (p "dim %d" c.d);
   add (p "inroot %s" (join " " string_of_int c.inp.root));
+  if List.exists (fun b -> b <> 0) c.inp.rbase then add (p "inbase %s" (join " " string_of_int c.inp.rbase));
   List.iter (fun o -> add ("inop " ^ op_text o)) c.inp.ops;
   add (p "out %s" (mode_text c.mode));
   (match c.mode with
-   | Separate -> add (p "outroot %s" (join " " string_of_int c.out.root))
+   | Separate ->
+       add (p "outroot %s" (join " " string_of_int c.out.root));
+       if List.exists (fun b -> b <> 0) c.out.rbase then add (p "outbase %s" (join " " string_of_int c.out.rbase))
    | _ -> ());
   (match c.mode with
    | Same -> ()
@@ -61,8 +72,10 @@ let case_text (c : case) : string =
   Buffer.contents b
 
 (* ---- the model side ---- *)
-let view_of (s : side) : view option =
-  run_ops s.ops (root_view (List.map (fun e -> (z 0, z e)) s.root))
+let root_exts (s : side) : (z * z) list =
+  let rb = if s.rbase = [] then List.map (fun _ -> 0) s.root else s.rbase in
+  List.map2 (fun b e -> (z b, z (b + e))) rb s.root
+let view_of (s : side) : view option = run_ops s.ops (root_view (root_exts s))
 
 let views (c : case) : (view * view) option =
   match view_of c.inp with
@@ -71,7 +84,7 @@ let views (c : case) : (view * view) option =
       (match c.mode with
        | Same -> Some (vin, vin)
        | Separate -> (match view_of c.out with Some vo -> Some (vin, vo) | None -> None)
-       | Shared -> (match view_of { root = c.inp.root; ops = c.out.ops } with Some vo -> Some (vin, vo) | None -> None))
+       | Shared -> (match view_of { c.inp with ops = c.out.ops } with Some vo -> Some (vin, vo) | None -> None))
 
 let events (c : case) (vin : view) (vout : view) : fftw_event list =
   let w = c.which in
@@ -89,36 +102,73 @@ let iodims l =
 let masked_strides sz st =
   String.concat "," (List.map2 (fun n s -> if n >= 2 then string_of_int s else "*") sz st)
 
+(* the W line: the set of written locations; above w_list_max elements a digest (count, min, max and two
+   order-independent sums of h(a) = (48271 a + 11) mod 1000000007) instead of the list itself *)
+(* the planner flags compared with the implementation: DESTROY_INPUT 1, EXHAUSTIVE 8, PRESERVE_INPUT 16, PATIENT 32,
+   ESTIMATE 64, WISDOM_ONLY 1 lsl 21 (same mask in harness/h_fftw_c15.cpp) *)
+let semantic_flags = 1 lor 8 lor 16 lor 32 lor 64 lor (1 lsl 21)
+let w_list_max = 20000
+let w_extracted_max = 300000
+let digest_add (n, lo, hi, s1, s2) a =
+  let pm = 1000000007 in
+  let h = ((a mod pm + pm) mod pm * 48271 + 11) mod pm in
+  (n + 1, min lo a, max hi a, (s1 + h) mod pm, (s2 + h * h mod pm) mod pm)
+let digest_text (n, lo, hi, s1, s2) = p "n=%d min=%d max=%d s1=%d s2=%d" n lo hi s1 s2
+let digest_empty = (0, max_int, min_int, 0, 0)
+(* the locations the guru plan g writes, enumerated with native integers straight from FFTW's reading of the
+   tensors (out + sum of index * os over all dims and howmany_dims): used only above w_extracted_max elements,
+   or when one dimension is longer than 2000 (zrange goes through unary numbers: quadratic), where the extracted
+   plan_out_addresses is too heavy *)
+let native_out_digest (g : guru_call) =
+  let ds = List.map (fun d -> (i d.io_n, i d.io_os)) (g.g_dims @ g.g_hdims) in
+  let rec go acc base = function
+    | [] -> digest_add acc base
+    | (n, os) :: rest ->
+        let a = ref acc in
+        for k = 0 to n - 1 do a := go !a (base + k * os) rest done;
+        !a in
+  go digest_empty (i g.g_out) ds
+
 let model_obs (c : case) (ob : Buffer.t) : unit =
   let add s = Buffer.add_string ob s; Buffer.add_char ob '\n' in
   match views c with
   | None -> add (p "U %s out-of-domain view operation" c.id); add (p "E %s" c.id)
   | Some (vin, vout) ->
-      let shape v = p "sizes=%s strides=%s base=%d" (ints (il (l_sizes v.lay)))
-                      (masked_strides (il (l_sizes v.lay)) (il (l_strides v.lay))) (i v.base) in
+      let shape v =
+        let sz = il (l_sizes v.lay) in
+        p "sizes=%s strides=%s base=%d first=%s" (ints sz) (masked_strides sz (il (l_strides v.lay))) (i v.base)
+          (String.concat "," (List.map2 (fun n f -> if n >= 1 then string_of_int f else "*") sz (il (firsts v.lay)))) in
       add (p "V %s in %s | out %s" c.id (shape vin) (shape vout));
       let evs = events c vin vout in
-      let kosher = List.for_all (function EvPlan g -> guru_kosher g | _ -> true) evs in
       List.iter (function
         | EvPlan g ->
             add (p "G %s rank=%d dims=%s hrank=%d hdims=%s in=%d out=%d sign=%d flags=%d" c.id
                    (i g.g_rank) (iodims g.g_dims) (i g.g_hrank) (iodims g.g_hdims) (i g.g_in) (i g.g_out)
-                   (i g.g_sign) (i g.g_flags))
+                   (i g.g_sign) ((i g.g_flags) land semantic_flags))
         | _ -> ()) evs;
       add (p "X %s %s" c.id
              (join "," (function EvPlan _ -> "plan" | EvExecute (a, b) -> p "execute(%d;%d)" (i a) (i b)
                                | EvDestroy -> "destroy") evs));
       (* the model follows the code: W = the locations the plan writes (none when there is no plan: an empty
          input view returns before planning) *)
-      ignore kosher;
       (match c.mode with
        | Same -> add (p "W %s -" c.id)
        | _ ->
            let g = List.fold_left (fun acc e -> match e with EvPlan g -> Some g | _ -> acc) None evs in
+           let n = List.fold_left ( * ) 1 (il (l_sizes vin.lay)) in
            (match g with
-            | Some g -> add (p "W %s %s" c.id (ints (List.sort_uniq compare (il (plan_out_addresses g)))))
+            | Some g when n <= w_list_max -> add (p "W %s %s" c.id (ints (List.sort_uniq compare (il (plan_out_addresses g)))))
+            | Some g when n <= w_extracted_max && List.for_all (fun e -> e <= 2000) (il (l_sizes vin.lay)) ->
+                add (p "W %s %s" c.id (digest_text (List.fold_left digest_add digest_empty
+                                                       (List.sort_uniq compare (il (plan_out_addresses g))))))
+            | Some g -> add (p "W %s %s" c.id (digest_text (native_out_digest g)))
             | None -> add (p "W %s " c.id)));
-      add (p "M %s dft=1 input=1 frame=1 guards=1 fb=1" c.id);
+      (* the planner flags the model predicts keep the arrays intact at planning time and preserve the input *)
+      let flags_ok = List.for_all (function
+          | EvPlan g -> planning_preserves_arrays g.g_flags && not (planning_needs_wisdom g.g_flags)
+                        && (i g.g_flags) land 16 <> 0
+          | _ -> true) evs in
+      add (p "M %s dft=1 input=1 frame=1 guards=1 fb=1 planflags=%d planpure=1" c.id (if flags_ok then 1 else 0));
       add (p "E %s" c.id)
 
 (* ---- generator ---- *)
@@ -134,39 +184,70 @@ let induced_perm (d : int) (ops : op list) : int list =
   | Some v -> List.map (fun s -> i s - 101) (l_sizes v.lay)
   | None -> failwith "perm ops out of domain"
 
-type recipe = { perm_ops : op list; m : int array; lo : int array; hi : int array; st : int array }
+type recipe = { perm_ops : op list; m : int array; lo : int array; hi : int array; st : int array;
+                rb : int array;          (* first index of every extension of the root *)
+                blk : bool array }       (* sub-block taken with blocked(a, b) (extension [a, b)) instead of sliced *)
 
-let gen_perm_ops (d : int) : op list =
+let gen_perm_ops ?(reidx = false) (d : int) : op list =
   let k = weighted [ (30, 0); (35, 1); (25, 2); (10, 3) ] in
   List.map (fun _ ->
-      let cands = [ (30, ORotated); (20, OUnrotated); (15, OReversed) ] @ (if d >= 2 then [ (35, OTransposed) ] else []) in
+      let cands = [ (30, ORotated); (20, OUnrotated); (15, OReversed) ] @ (if d >= 2 then [ (35, OTransposed) ] else [])
+                  @ (if reidx then [ (25, OReindexed (z (rnd_range (-2) 4))) ] else []) in
       weighted cands) (upto 1 k)
 
-let gen_recipe (d : int) (target : int list) (pad_pct : int) : recipe =
-  let perm_ops = gen_perm_ops d in
-  let perm = induced_perm d perm_ops in
+let gen_base () = if chance 70 then rnd_range (-3) 5 else 0
+
+(* based = the side uses index bases other than 0: a root over based extensions, blocked sub-blocks,
+   reindexed in between *)
+let gen_recipe ?(based = false) (d : int) (target : int list) (pad_pct : int) : recipe =
+  let perm_ops = gen_perm_ops ~reidx:based d in
+  let perm = induced_perm d (List.filter (function OReindexed _ -> false | _ -> true) perm_ops) in
   let m = Array.make d 1 in
   List.iteri (fun j pj -> m.(pj) <- List.nth target j) perm;
   let padded = chance pad_pct in
   let lo = Array.init d (fun _ -> if padded then weighted [ (50, 0); (30, 1); (20, 2) ] else 0) in
   let hi = Array.init d (fun _ -> if padded then weighted [ (50, 0); (30, 1); (20, 2) ] else 0) in
   let st = Array.init d (fun _ -> if padded && chance 20 then weighted [ (70, 2); (30, 3) ] else 1) in
-  { perm_ops; m; lo; hi; st }
+  let rb = Array.init d (fun _ -> if based && chance 60 then gen_base () else 0) in
+  let blk = Array.init d (fun _ -> based && chance 35) in
+  { perm_ops; m; lo; hi; st; rb; blk }
 
 let need (r : recipe) (k : int) = r.lo.(k) + r.m.(k) * r.st.(k) + r.hi.(k)
 
-(* slice every dimension in turn (slice, optional stride, rotate: D rotations are the identity), then permute *)
+(* slice every dimension in turn (slice, optional stride, rotate: D rotations are the identity), then permute;
+   slice arguments are indices of the root's extension (sliced keeps the first index, blocked(a,b) makes it a) *)
 let recipe_ops ?(root : int list option) (d : int) (r : recipe) (shift : int array) : op list =
   let per_dim k =
     let a = shift.(k) + r.lo.(k) in
     let b = a + r.m.(k) * r.st.(k) in
     let extent = match root with Some e -> List.nth e k | None -> need r k in
-    let trivial = a = 0 && b = extent && r.st.(k) = 1 in
-    (if trivial then [] else [ OSliced (z a, z b) ])
+    let trivial = a = 0 && b = extent && r.st.(k) = 1 && not r.blk.(k) in
+    let a' = a + r.rb.(k) and b' = b + r.rb.(k) in
+    (if trivial then [] else [ (if r.blk.(k) then OBlocked (z a', z b') else OSliced (z a', z b')) ])
     @ (if r.st.(k) > 1 then [ OStrided (z r.st.(k)) ] else []) in
   let all_trivial = List.for_all (fun k -> per_dim k = []) (upto 0 (d - 1)) in
   (if all_trivial then [] else List.concat_map (fun k -> per_dim k @ [ ORotated ]) (upto 0 (d - 1)))
   @ r.perm_ops
+
+let side_of ?root (d : int) (r : recipe) (shift : int array) : side =
+  { root = (match root with Some e -> e | None -> List.map (need r) (upto 0 (d - 1)));
+    rbase = (if Array.exists (fun b -> b <> 0) r.rb then Array.to_list r.rb else []);
+    ops = recipe_ops ?root d r shift }
+
+let reindex_op (f : int list) : op = match f with [ a ] -> OReindexed (z a) | _ -> OReindexedL (zl f)
+let firsts_of_side (s : side) : int list option =
+  match view_of s with Some v -> Some (il (firsts v.lay)) | None -> None
+
+(* the property is about views of equal extents: give both sides the same first indices (those of the input,
+   those of the output, or fresh ones) with a final reindexed(i, j, ...) where they differ *)
+let equalize (d : int) (based : bool) (inp : side) (out : side) : side * side =
+  match firsts_of_side inp, firsts_of_side out with
+  | Some fi, Some fo ->
+      let target = if not based then fi
+        else (match rnd 3 with 0 -> fi | 1 -> fo | _ -> List.map (fun _ -> gen_base ()) (upto 1 d)) in
+      let fix s f = if f = target then s else { s with ops = s.ops @ [ reindex_op target ] } in
+      (fix inp fi, fix out fo)
+  | _ -> (inp, out)
 
 let apis_for (mode : outmode) = match mode with
   | Same -> [ (40, "dft"); (25, "dft4"); (20, "fb"); (15, "plan") ]
@@ -183,20 +264,23 @@ let gen_pair (pair_id : string) (maxd : int) (bump : string -> unit) : case list
     if List.fold_left ( * ) 1 s > 450 then sizes () else s in
   let target = sizes () in
   let mode = weighted [ (62, Separate); (22, Same); (16, Shared) ] in
-  let rin = gen_recipe d target 60 in
-  let rout = gen_recipe d target 60 in
+  let based = chance 50 in
+  let rin = gen_recipe ~based d target 60 in
+  let rout = gen_recipe ~based d target 60 in
+  let rout = if mode = Shared then { rout with rb = rin.rb } else rout in     (* one root, one set of index bases *)
   let zero = Array.make d 0 in
   let inp, out =
     match mode with
-    | Separate ->
-        { root = List.map (need rin) (upto 0 (d - 1)); ops = recipe_ops d rin zero },
-        { root = List.map (need rout) (upto 0 (d - 1)); ops = recipe_ops d rout zero }
-    | Same -> let s = { root = List.map (need rin) (upto 0 (d - 1)); ops = recipe_ops d rin zero } in (s, s)
+    | Separate -> equalize d based (side_of d rin zero) (side_of d rout zero)
+    | Same ->
+        let s = side_of d rin zero in
+        let s = if based && chance 40 then { s with ops = s.ops @ [ reindex_op (List.map (fun _ -> gen_base ()) (upto 1 d)) ] } else s in
+        (s, s)
     | Shared ->
         let k0 = rnd d in
         let root = List.map (fun k -> if k = k0 then need rin k + need rout k else max (need rin k) (need rout k)) (upto 0 (d - 1)) in
         let shift = Array.init d (fun k -> if k = k0 then need rin k else 0) in
-        { root; ops = recipe_ops ~root d rin zero }, { root; ops = recipe_ops ~root d rout shift } in
+        equalize d based (side_of ~root d rin zero) (side_of ~root d rout shift) in
   bump (p "D%d" d);
   bump ("mode-" ^ mode_text mode);
   if List.exists (fun n -> n = 1) target then bump "has-extent-1";
@@ -207,6 +291,12 @@ let gen_pair (pair_id : string) (maxd : int) (bump : string -> unit) : case list
   if Array.exists (fun x -> x > 1) rin.st || Array.exists (fun x -> x > 1) rout.st then bump "strided-view";
   if rin.perm_ops <> [] then bump "in-permuted";
   if rout.perm_ops <> [] && mode <> Same then bump "out-permuted";
+  (match firsts_of_side inp with
+   | Some f when List.exists (fun x -> x <> 0) f -> bump "pairs-with-nonzero-index-base"
+   | _ -> ());
+  if inp.rbase <> [] || out.rbase <> [] then bump "root-over-based-extensions";
+  if List.exists (function OBlocked _ -> true | _ -> false) (inp.ops @ out.ops) then bump "blocked-subblock";
+  if List.exists (function OReindexed _ | OReindexedL _ -> true | _ -> false) (inp.ops @ out.ops) then bump "reindexed-view";
   List.mapi (fun k which ->
       let sign = if chance 50 then -1 else 1 in
       let api = weighted (apis_for mode) in
@@ -222,9 +312,11 @@ let gen_empty_pair (pair_id : string) (bump : string -> unit) : case list =
   let mk () =
     let r = gen_recipe d target 0 in
     let r = { r with lo = Array.make d 1; hi = Array.make d 1 } in
-    { root = List.map (need r) (upto 0 (d - 1)); ops = recipe_ops d r (Array.make d 0) } in
+    side_of d r (Array.make d 0) in
   let inp = mk () and out = mk () in
   let mode = weighted [ (70, Separate); (30, Same) ] in
+  let based = chance 40 in
+  let inp, out = if mode = Same then (inp, inp) else equalize d based inp out in
   bump "empty-extent-pairs";
   List.mapi (fun k which ->
       let sign = if chance 50 then -1 else 1 in
@@ -232,40 +324,79 @@ let gen_empty_pair (pair_id : string) (bump : string -> unit) : case list =
       { id = p "%sm%d" pair_id k; d; inp; mode; out = (if mode = Same then inp else out); which; sign; api })
     (all_masks d)
 
-(* the lazy range form: D = 2 or 3; the output is a fresh array (row-major, the extents of the input view);
-   inputs: plain arrays, transposed/rotated arrays, padded sub-blocks *)
+(* the lazy range form: D = 2 or 3; the output is a fresh array (row-major, the sizes of the input view);
+   inputs: plain arrays, transposed/rotated arrays, padded sub-blocks, half of them with index bases *)
 let gen_lazy_pair (pair_id : string) (bump : string -> unit) : case list =
   let d = weighted [ (60, 2); (40, 3) ] in
   let target = List.map (fun _ -> weighted [ (10, 1); (30, 2); (30, 3); (30, 4) ]) (upto 1 d) in
   let plain = chance 50 in
-  let r = gen_recipe d target (if plain then 0 else 50) in
+  let based = chance 50 in
+  let r = gen_recipe ~based d target (if plain then 0 else 50) in
   let r = if plain then { r with perm_ops = [] } else r in
-  let perm = induced_perm d r.perm_ops in
+  let perm = induced_perm d (List.filter (function OReindexed _ -> false | _ -> true) r.perm_ops) in
   let m = Array.make d 1 in
   List.iteri (fun j pj -> m.(pj) <- List.nth target j) perm;
   let r = { r with m } in
-  let inp = { root = List.map (need r) (upto 0 (d - 1)); ops = recipe_ops d r (Array.make d 0) } in
-  let out = { root = target; ops = [] } in
+  let inp = side_of d r (Array.make d 0) in
+  let inp = if based && chance 50 then { inp with ops = inp.ops @ [ reindex_op (List.map (fun _ -> gen_base ()) (upto 1 d)) ] } else inp in
+  let out = { root = target; rbase = []; ops = [] } in
   bump "lazy-range-pairs";
+  (match firsts_of_side inp with
+   | Some f when List.exists (fun x -> x <> 0) f -> bump "lazy-range-pairs-with-nonzero-index-base"
+   | _ -> ());
   List.mapi (fun k which ->
       let sign = if chance 50 then -1 else 1 in
       { id = p "%sm%d" pair_id k; d; inp; mode = Separate; out; which; sign; api = "fftrange" })
     (all_masks d)
 
-(* a case is in the domain when both views exist, are zero-based, have equal sizes, and -- unless in
-   place -- disjoint footprints *)
+(* large transforms, so that size-dependent branches of the adaptor are reached: class "A" has more than 2^16
+   elements, class "B" more than 2^20; shapes with few dimensions, contiguous or permuted roots, optional index
+   bases; all masks; out of place and in place; every front end *)
+let gen_large_pair (pair_id : string) (cls : string) (bump : string -> unit) : case list =
+  let shape =
+    if cls = "A" then
+      weighted [ (25, [ 65537 + rnd 3000 ]); (25, [ 2 + rnd 3; 32769 + rnd 3000 ]); (25, [ 257 + rnd 40; 256 + rnd 40 ]);
+                 (25, [ 2; 182 + rnd 20; 181 + rnd 20 ]) ]
+    else
+      weighted [ (25, [ 1048577 + rnd 5000 ]); (30, [ 2 + rnd 3; 524289 + rnd 1000 ]); (30, [ 1025 + rnd 8; 1024 + rnd 8 ]);
+                 (15, [ 2; 2; 262145 + rnd 100 ]) ] in
+  let d = List.length shape in
+  let based = chance 50 in
+  let mode = weighted [ (65, Separate); (35, Same) ] in
+  let mk () =
+    let r = gen_recipe ~based d shape 0 in
+    let r = { r with blk = Array.make d false } in
+    side_of d r (Array.make d 0) in
+  let inp = mk () and out = mk () in
+  let inp, out =
+    if mode = Same then
+      let s = if based then { inp with ops = inp.ops @ [ reindex_op (List.map (fun _ -> gen_base ()) (upto 1 d)) ] } else inp in (s, s)
+    else equalize d based inp out in
+  bump ("large-pairs-class-" ^ cls);
+  List.mapi (fun k which ->
+      let sign = if chance 50 then -1 else 1 in
+      let api = weighted (apis_for mode) in
+      { id = p "%sm%d" pair_id k; d; inp; mode; out; which; sign; api }) (all_masks d)
+
+let exts_equal (a : view) (b : view) : bool =
+  let ea = l_extensions a.lay and eb = l_extensions b.lay in
+  List.length ea = List.length eb && List.for_all2 r_eq ea eb
+
+(* a case is in the domain when both views exist, have equal extensions (equal sizes for the lazy form, whose
+   output is a fresh array), and -- unless in place -- disjoint footprints *)
 let in_domain (c : case) : bool =
   match views c with
   | None -> false
   | Some (vin, vout) ->
-      zero_basedb vin.lay && zero_basedb vout.lay && il (l_sizes vin.lay) = il (l_sizes vout.lay)
+      il (l_sizes vin.lay) = il (l_sizes vout.lay)
+      && (c.api = "fftrange" || exts_equal vin vout)
       && (c.api <> "plan"      (* explicit plan objects assert a non-NULL plan: FFTW's own domain is their precondition *)
           || List.for_all (function EvPlan g -> guru_kosher g | _ -> true) (events c vin vout))
       && (match c.mode with
           | Same -> true
           | Separate -> true
           | Shared ->
-              let a = il (footprint vin) and b = il (footprint vout) in
+              let a = il (footprint_x vin) and b = il (footprint_x vout) in
               not (List.exists (fun x -> List.mem x b) a))
 
 (* ---- reading cases back (replay, shrinking) ---- *)
@@ -274,7 +405,7 @@ let words s = List.filter (fun w -> w <> "") (String.split_on_char ' ' (String.t
 let parse_cases (text : string) : case list =
   let lines = String.split_on_char '\n' text in
   let cur = ref None and acc = ref [] in
-  let empty id = { id; d = 0; inp = { root = []; ops = [] }; mode = Separate; out = { root = []; ops = [] };
+  let empty id = { id; d = 0; inp = { root = []; rbase = []; ops = [] }; mode = Separate; out = { root = []; rbase = []; ops = [] };
                    which = []; sign = -1; api = "dft" } in
   List.iter (fun line ->
       match words line with
@@ -289,6 +420,8 @@ let parse_cases (text : string) : case list =
                (match kw with
                 | "dim" -> cur := Some { c with d = int_of_string (List.hd rest) }
                 | "inroot" -> cur := Some { c with inp = { c.inp with root = ints () } }
+                | "inbase" -> cur := Some { c with inp = { c.inp with rbase = ints () } }
+                | "outbase" -> cur := Some { c with out = { c.out with rbase = ints () } }
                 | "inop" -> cur := Some { c with inp = { c.inp with ops = c.inp.ops @ [ op_of_words rest ] } }
                 | "out" ->
                     let m = (match rest with [ "same" ] -> Same | [ "shared" ] -> Shared | _ -> Separate) in
@@ -311,6 +444,9 @@ let coq_op (o : op) : string =
   | OSliced (a, b) -> p "OSliced %s %s" (cz (i a)) (cz (i b))
   | OStrided s -> p "OStrided %s" (cz (i s))
   | ORotated -> "ORotated" | OUnrotated -> "OUnrotated" | OTransposed -> "OTransposed" | OReversed -> "OReversed"
+  | OReindexed a -> p "OReindexed %s" (cz (i a))
+  | OReindexedL l -> p "OReindexedL %s" (clist cz (il l))
+  | OBlocked (a, b) -> p "OBlocked %s %s" (cz (i a)) (cz (i b))
   | _ -> failwith "op"
 let coq_iodim d = p "mkiodim %s %s %s" (cz (i d.io_n)) (cz (i d.io_is)) (cz (i d.io_os))
 let coq_guru g =
@@ -323,14 +459,14 @@ let coq_file (cases : case list) : string =
   add "(* generated by driver_c15 coq: extracted-model results re-evaluated by vm_compute *)";
   add "From BM Require Import Base.Tactics Model.Layout Model.View Model.FftwPlan.";
   add "Local Open Scope Z_scope.";
-  add "Definition c15_obs (inroot : list Z) (inops : list op) (outroot : list Z) (outops : list op) (same : bool)";
-  add "  (which : list bool) (sign : Z) : option (guru_call * list Z * bool) :=";
-  add "  match run_ops inops (root_view (map (fun e => (0, e)) inroot)) with";
+  add "Definition c15_obs (inroot : list range) (inops : list op) (outroot : list range) (outops : list op) (same : bool)";
+  add "  (which : list bool) (sign : Z) : option (guru_call * list Z * bool * list Z * list Z) :=";
+  add "  match run_ops inops (root_view inroot) with";
   add "  | Some vin =>";
-  add "      match (if same then Some vin else run_ops outops (root_view (map (fun e => (0, e)) outroot))) with";
+  add "      match (if same then Some vin else run_ops outops (root_view outroot)) with";
   add "      | Some vout =>";
-  add "          let g := fftw_plan_dft which (base vin) (lay vin) (base vout) (lay vout) sign in";
-  add "          Some (g, plan_out_addresses g, guru_kosher g)";
+  add "          let g := plan_ctor which (base vin) (lay vin) (base vout) (lay vout) sign in";
+  add "          Some (g, plan_out_addresses g, guru_kosher g, firsts (lay vin), firsts (lay vout))";
   add "      | None => None end";
   add "  | None => None end.";
   List.iter (fun c ->
@@ -338,13 +474,17 @@ let coq_file (cases : case list) : string =
       | None -> ()
       | Some (vin, vout) ->
           let sign = (match c.api with "fb" | "fft" -> if c.sign < 0 then -1 else 1 | _ -> c.sign) in
-          let g = fftw_plan_dft c.which vin.base vin.lay vout.base vout.lay (z sign) in
-          let outroot = (match c.mode with Separate -> c.out.root | _ -> c.inp.root) in
-          add (p "Example x_%s : c15_obs %s %s %s %s %s %s %s = Some (%s, %s, %s)." c.id
-                 (clist cz c.inp.root) (clist coq_op c.inp.ops) (clist cz outroot)
+          let g = plan_ctor c.which vin.base vin.lay vout.base vout.lay (z sign) in
+          let outside = (match c.mode with Separate -> c.out | _ -> c.inp) in
+          let cexts s = clist (fun (a, b) -> p "(%s, %s)" (cz (i a)) (cz (i b))) (root_exts s) in
+          if List.fold_left ( * ) 1 (il (l_sizes vin.lay)) <= w_list_max then
+          add (p "Example x_%s : c15_obs %s %s %s %s %s %s %s = Some (%s, %s, %s, %s, %s)." c.id
+                 (cexts c.inp) (clist coq_op c.inp.ops) (cexts outside)
                  (clist coq_op (if c.mode = Same then [] else c.out.ops)) (if c.mode = Same then "true" else "false")
                  (clist (fun x -> if x then "true" else "false") c.which) (cz sign)
-                 (coq_guru g) (clist cz (il (plan_out_addresses g))) (if guru_kosher g then "true" else "false"));
+                 (coq_guru g) (clist cz (il (plan_out_addresses g))) (if guru_kosher g then "true" else "false")
+                 (clist cz (il (firsts vin.lay))) (clist cz (il (firsts vout.lay))));
+          if List.fold_left ( * ) 1 (il (l_sizes vin.lay)) <= w_list_max then
           add "Proof. vm_compute. reflexivity. Qed.") cases;
   Buffer.contents b
 
@@ -364,16 +504,25 @@ let () =
        let pairs = geti "--pairs" 60 and maxd = geti "--maxd" 4 in
        let prefix = get "--prefix" "c" args in
        let empties = geti "--empty-pairs" 0 and lazies = geti "--lazy-pairs" 0 in
-       for k = 1 to pairs + empties + lazies do
+       let la = geti "--large-a" 0 and lb = geti "--large-b" 0 in
+       for k = 1 to pairs + empties + lazies + la + lb do
          let cases = if k <= pairs then gen_pair (p "%s%d" prefix k) maxd bump
                      else if k <= pairs + empties then gen_empty_pair (p "%sz%d" prefix (k - pairs)) bump
-                     else gen_lazy_pair (p "%sl%d" prefix (k - pairs - empties)) bump in
+                     else if k <= pairs + empties + lazies then gen_lazy_pair (p "%sl%d" prefix (k - pairs - empties)) bump
+                     else if k <= pairs + empties + lazies + la then gen_large_pair (p "%sA%d" prefix (k - pairs - empties - lazies)) "A" bump
+                     else gen_large_pair (p "%sB%d" prefix (k - pairs - empties - lazies - la)) "B" bump in
          List.iter (fun c ->
              if in_domain c then begin
                bump "cases";
                bump ("api-" ^ c.api);
                bump (if c.sign < 0 then "sign-forward" else "sign-backward");
                bump (p "mask-popcount-%d" (List.length (List.filter (fun x -> x) c.which)));
+               (match views c with
+                | Some (vin, _) ->
+                    let n = List.fold_left ( * ) 1 (il (l_sizes vin.lay)) in
+                    bump (if n <= 65536 then "elements<=2^16" else if n <= 1048576 then "elements-in-(2^16,2^20]" else "elements>2^20");
+                    if List.exists (fun x -> x <> 0) (il (firsts vin.lay)) then bump "cases-with-nonzero-index-base"
+                | None -> ());
                Buffer.add_string prog (case_text c);
                model_obs c obs
              end else bump "rejected-out-of-domain") cases
